@@ -5,6 +5,42 @@ namespace SaphyrModel.Sc
 open SaphyrModel
 
 set_option maxHeartbeats 4000000 in
+theorem blockHeaderDigit_frames (m : Marker) (ch : Chomping) : Frames (blockHeaderDigit m ch) := by
+  unfold blockHeaderDigit; frames2
+macro_rules | `(tactic| frames_close) => `(tactic| exact blockHeaderDigit_frames _ _)
+set_option maxHeartbeats 4000000 in
+theorem blockHeaderChomp_frames (d : Char) : Frames (blockHeaderChomp d) := by
+  unfold blockHeaderChomp; frames2
+macro_rules | `(tactic| frames_close) => `(tactic| exact blockHeaderChomp_frames _)
+set_option maxHeartbeats 4000000 in
+theorem blockHeader_frames (m : Marker) (c : Char) (b : Bool) : Frames (blockHeader m c b) := by
+  unfold blockHeader; frames2
+macro_rules | `(tactic| frames_close) => `(tactic| exact blockHeader_frames _ _ _)
+set_option maxHeartbeats 4000000 in
+theorem blockChompingBreak_frames  : Frames (blockChompingBreak ) := by
+  unfold blockChompingBreak; frames2
+macro_rules | `(tactic| frames_close) => `(tactic| exact blockChompingBreak_frames )
+set_option maxHeartbeats 4000000 in
+theorem blockIndent_frames (inc : Nat) (s : Sc) : Frames (blockIndent inc s) := by
+  unfold blockIndent; frames2
+macro_rules | `(tactic| frames_close) => `(tactic| exact blockIndent_frames _ _)
+set_option maxHeartbeats 4000000 in
+theorem blockMarkerCheck_frames (ind : Nat) (s : Sc) : Frames (blockMarkerCheck ind s) := by
+  unfold blockMarkerCheck; frames2
+macro_rules | `(tactic| frames_close) => `(tactic| exact blockMarkerCheck_frames _ _)
+set_option maxHeartbeats 4000000 in
+theorem blockFinish_frames (ch : Chomping) (ind : Nat) (a : BlkAcc) (s : Sc) : Frames (blockFinish ch ind a s) := by
+  unfold blockFinish; frames2
+macro_rules | `(tactic| frames_close) => `(tactic| exact blockFinish_frames _ _ _ _)
+set_option maxHeartbeats 4000000 in
+theorem blockContent_frames (lit : Bool) (ch : Chomping) (ind : Nat) (tb : Str) (s : Sc) : Frames (blockContent lit ch ind tb s) := by
+  unfold blockContent; frames2
+macro_rules | `(tactic| frames_close) => `(tactic| exact blockContent_frames _ _ _ _ _)
+set_option maxHeartbeats 4000000 in
+theorem blockAfterHeader_frames (lit : Bool) (m : Marker) (ch : Chomping) (inc : Nat) (cb : Str) : Frames (blockAfterHeader lit m ch inc cb) := by
+  unfold blockAfterHeader; frames2
+macro_rules | `(tactic| frames_close) => `(tactic| exact blockAfterHeader_frames _ _ _ _ _)
+set_option maxHeartbeats 4000000 in
 theorem scanBlockScalarBody_frames (lit : Bool) (m : Marker) : Frames (scanBlockScalarBody lit m) := by
   unfold scanBlockScalarBody; frames2
 macro_rules | `(tactic| frames_close) => `(tactic| exact scanBlockScalarBody_frames _ _)
